@@ -35,9 +35,10 @@ func RunInit(args []string, opts GlobalOptions) error {
 	if err := os.MkdirAll(target, 0755); err != nil {
 		return err
 	}
-	plansPath := filepath.Join(target, plansFileName)
+	// Keep using the log file the store already has (a legacy events.jsonl must not be shadowed by a new, empty plans.jsonl).
+	eventsPath := getEventsPath(target)
 	lockPath := filepath.Join(target, "lock")
-	if err := ensureFileExists(plansPath, 0644); err != nil {
+	if err := ensureFileExists(eventsPath, 0644); err != nil {
 		return err
 	}
 	if err := ensureFileExists(lockPath, 0644); err != nil {
